@@ -150,6 +150,38 @@ def sweep(chk, r, root, df, in_parts, npart, mode, kinds, positions, tag):
     return K, base
 
 
+def aborted_then_rerun(chk, r, root, df, in_parts, npart, mode, methods, tag):
+    """a fault that persists beyond the retry budget (three consecutive calls of one method fail) aborts the run; whatever it left behind -
+    in the dataset directory and in a fixed external temporary area - a repeat with overwrite=True produces the fault-free dataset"""
+    base = one_run(df, in_parts, npart, mode, {}, root)
+    if base["outcome"] != "returned":
+        chk.violation(f"faults/fault-free-run-raises/{mode}", dict(api="pack_partitions_to_parquet", mode=mode, outcome=base["outcome"])); return
+    ref, ref_ds = strip(base["snap"]), strip(base["snap"], dataset_only=True)
+    rep0 = dict(api="pack_partitions_to_parquet", rows=len(df), input_partitions=in_parts, npartitions=npart, tempdir=mode, retry=RETRY)
+    aborted = 0
+    for meth in methods:
+        n_m = sum(1 for c in base["log"] if c[0] == meth)
+        for j in range(1, n_m + 1, 1 if n_m <= 12 else 2):
+            plan = {(meth, j): "oserror", (meth, j + 1): "oserror", (meth, j + 2): "oserror"}
+            res = one_run(df, in_parts, npart, mode, plan, root)
+            chk.evaluated()
+            rep = dict(rep0, fault=dict(position=[meth, j], kind="oserror x3"), fired=[list(x) for x in res["fired"]])
+            if res["outcome"] == "returned":
+                if strip(res["snap"]) != ref:
+                    got = strip(res["snap"])
+                    diff = [key for key in ref if got.get(key) != ref[key]]
+                    chk.violation(f"faults/returns-with-different-dataset/{diff[0]}/oserror-burst@{meth}", dict(rep, differs=diff))
+            else:
+                aborted += 1
+                rr = res.get("rerun")
+                if isinstance(rr, str) or strip(rr, dataset_only=True) != ref_ds:
+                    what = "raised" if isinstance(rr, str) else [key for key in ref_ds if strip(rr, True).get(key) != ref_ds[key]][0]
+                    chk.violation(f"faults/rerun-after-abort-differs/{what}/oserror-burst@{meth}", dict(rep, rerun=rr if isinstance(rr, str) else {what: rr.get(what)}))
+            if res["fired"]:
+                chk.nontriv(hash((tag, mode, meth, j)))
+    chk.count(f"aborted-then-rerun:{mode}", aborted)
+
+
 def run_cases(chk, tier):
     import dask
     dask.config.set(scheduler="synchronous")
@@ -167,6 +199,9 @@ def run_cases(chk, tier):
         # (with an external temporary area nothing else removes the same path a second time)
         sweep(chk, r, root, dfd, 2, 5, "outside-uuid", ["fnf@rm", "fnf@mv", "fnf@ls", "fnf@exists"], "all", "empties-fnf")
         sweep(chk, r, root, df, 2, 3, "outside-plain", ["fnf@rm", "fnf@mv"], "all", "plain-fnf")
+        # runs that abort (a fault outlasting the retries), then the repeat with overwrite=True; fixed external temporary area included
+        aborted_then_rerun(chk, r, root, df, 2, 3, "outside-plain", ("rm", "open", "makedirs", "mv"), "abort-plain")
+        aborted_then_rerun(chk, r, root, df, 2, 3, "inside", ("rm", "open"), "abort-inside")
         if tier != "quick":
             sweep(chk, r, root, dfd, 2, 5, "outside-plain", ["oserror", "fnf", "stale", "partial"], "all", "empties-plain")
             # pairs of faults and repeats up to / beyond the retry budget
